@@ -7,7 +7,7 @@ ID="${1:?property id}"; TIER="${2:-${VERIF_TIER:-quick}}"
 HERE="$(cd "$(dirname "$0")" && pwd)"
 REPO="${VERIF_REPO:-/repo}"
 export GOFLAGS=-mod=mod GOPROXY=off GOSUMDB=off GOTOOLCHAIN=local
-export VERIF_ROOT="$HERE"
+export VERIF_ROOT="${VERIF_ROOT_OVERRIDE:-$HERE}"   # (the override is used only by tools/seedmatrix.sh)
 GO=go1.26
 SCR="/dev/shm/verif-$$"
 mkdir -p "$SCR/ov" "$SCR/tmp" || { echo "INFRA-ERROR cannot create scratch"; exit 2; }
